@@ -34,6 +34,7 @@ def run(ctx):
     accumulate_only(ctx, fb, 'C17.accumulate', lambda f: is_int8_fn(f))
     quant_params_used(ctx, fb)
     im2col_padding(ctx, fb)
+    depth_block(ctx, fb)
 
 
 def is_int8_fn(f):
@@ -554,3 +555,62 @@ def im2col_padding(ctx, fb):
                  'pack_im2col passes its zero_point on to the packer' if used else
                  'pack_im2col ignores its zero_point parameter: the padding region of a quantized image is packed as 0 instead of the zero point, so padded ConvInteger outputs are wrong on this kernel', g.loc())
     ctx.floor(R, 'int8 Kernel::pack_im2col impls', nk, 3)
+
+
+def depth_block(ctx, fb):
+    """the int8 packers and kernels consume K in tiles of 4 and the im2col packer pads a partial K tile only at the *end*
+    of the whole depth range (rows beyond n_rows): every depth block except the last must therefore be a multiple of the
+    K tile.  depth_block_size() guarantees this in one of two ways, checked on every value that can reach its return:
+    the value is a min / max composition of the parameters and the constant `1024 / size_of::<RhsT>()` (a non-final block
+    is then that constant), or it passed through next_multiple_of(..).  Any other arithmetic on the depth (e.g. splitting
+    it into equal blocks) can make a non-final block end inside a K tile, which corrupts the column sums used for
+    zero-point correction."""
+    R = 'C17.depth-block'
+    f = fb.fn('rten_gemm::depth_block_size')
+    if not ctx.anchor(R, 'rten_gemm::depth_block_size', f is not None and f.has_mir()):
+        return
+    bad = []
+
+    def ok_value(op, depth=8, seen=None):
+        seen = seen if seen is not None else set()
+        if op is None or depth <= 0:
+            return False
+        if op[0] == 'k':
+            return True
+        l = op_local(op)
+        if l is None or l in seen:
+            return l in seen
+        seen.add(l)
+        if 1 <= l <= f.argc:
+            return True
+        ds = f.defs().get(l, [])
+        if not ds:
+            return False
+        for d in ds:
+            if d[2] == 'call':
+                cal = d[3].callee or ''
+                if re.search(r'next_multiple_of$', cal):
+                    continue
+                if re.search(r'Ord::(min|max)$|::(min|max)$|Option::<T>::unwrap_or$|core::mem::size_of$', cal):
+                    if all(ok_value(a, depth - 1, seen) for a in d[3].args):
+                        continue
+                bad.append('call %s' % cal.split('::')[-1])
+                return False
+            rv = d[3]
+            if rv[0] == 'use':
+                if not ok_value(rv[1], depth - 1, seen):
+                    return False
+            elif rv[0] == 'bin' and rv[1].startswith('Div') and rv[2][0] == 'k':
+                # the constant block size: literal / size_of::<RhsT>()
+                if not ok_value(rv[3], depth - 1, seen):
+                    return False
+            elif rv[0] in ('agg', 'disc', 'cast'):
+                if not all(ok_value(o, depth - 1, seen) for o in _rv_operands(rv)):
+                    return False
+            else:
+                bad.append('%s %s' % (rv[0], rv[1] if len(rv) > 1 else ''))
+                return False
+        return True
+    ok = ok_value(['c', [0]])
+    ctx.inst(R, 'non-final-blocks-tile-aligned', ok, 'the depth block size is min/max of the depth, the constant 1024 / size_of and the minimum size (or rounded with next_multiple_of): non-final blocks are multiples of the K tile' if ok else
+             'the depth block size is computed with %s: a non-final depth block need not be a multiple of the int8 K tile (4), and the im2col packer then gathers rows of the next block into the padding of a partial tile (wrong column sums, every ConvInteger output off by zero_point * spurious elements)' % (', '.join(sorted(set(bad))) or 'unrecognised arithmetic'), f.loc())
